@@ -292,6 +292,16 @@ def handle_failure(ctx, group, gcfg, hdir, target, logdir, r, known, kargs, cbmc
         r.status = "inconclusive"
         r.reason = ("counterexample does not reproduce natively (%s): encoding or stub suspect; "
                     "not reported as a violation" % rep["message"][:120])
+        # keep the native log next to the harness log (the scratch directory is removed at the end of the run)
+        try:
+            nl = os.path.join(logdir, hs + ".native.log")
+            if os.path.exists(nl):
+                d = os.path.join(VERIF, "logs", ctx.prop)
+                os.makedirs(d, exist_ok=True)
+                with open(nl, errors="replace") as f, open(os.path.join(d, hs + ".native.log"), "w") as g:
+                    g.write(f.read()[-200000:])
+        except OSError:
+            pass
         return
     with NATIVE_LOCK:
         ran, pan, msg = kanirun.native_replay(hdir, chosen, os.path.join(logdir, hs + ".native_rel.log"), modules,
